@@ -1,3 +1,4 @@
+import Peppi.Tar
 import Peppi.ReadStream
 import Peppi.Write
 import Peppi.Utf8
@@ -137,6 +138,18 @@ partial def loop (h : IO.FS.Stream) : IO Unit := do
     let s := cut (b.length + 1) 0 b []
     match readSlpS { T with sjisOk := fun _ => sj == "1" } { skipFrames := skip == "1", computeHash := hash == "1" } s with
     | .ok (g, _) => IO.println (summary g)
+    | .err e => IO.println s!"err {e}"
+    | .panic p => IO.println s!"panic {p}"
+  | ["tarchk", hex] =>
+    -- the byte-level tar model on a real archive: list it, rebuild it from the listing, compare byte for byte
+    let a := parseHex hex
+    match tarRead (a.length / 512 + 2) a with
+    | .ok es =>
+      let b := tarArchive es
+      let first := match es.head? with | some e => String.fromUTF8! (ByteArray.mk e.1.toArray) | none => "-"
+      let sig := a.take 10 == "peppi.json".toUTF8.toList
+      if b == a then IO.println s!"ok same n={es.length} first={first} sig={sig}"
+      else IO.println s!"ok differ n={es.length} first={first} sig={sig} model_len={b.length} real_len={a.length}"
     | .err e => IO.println s!"err {e}"
     | .panic p => IO.println s!"panic {p}"
   | ["rt", hex] =>
